@@ -309,7 +309,7 @@ def correspondence(ctx):
     known = {f["id"] for f in ctx.known()}
     findings = load_corpus("findings.jsonl")
     cases = [r["case"] for r in findings] + [r["case"] for r in load_corpus("regressions.jsonl")]
-    n = ctx.pick(40, 700) * (2 if changed else 1)
+    n = ctx.pick(32, 700) * (2 if changed else 1)
     cases += [gen_case(ctx.rng, max_ops=ctx.pick(6, 8)) for _ in range(n)]
     before = len(ctx.violations)
     run_cases(ctx, cases)
